@@ -22,7 +22,10 @@ OutsMatch(exp, obs) ==
         /\ obs.outs[i].file = o /\ obs.outs[i].pkg = exp.outs[o].pkg
         /\ SetOf(obs.outs[i].types) = SetOf(exp.outs[o].types)
 \* (when the as-is model loses a schema's output, packages that import it cannot compile: builds is then free)
-Matches(exp, obs) == obs.failed = exp.failed /\ (~exp.failed => (OutsMatch(exp, obs) /\ (obs.builds \/ exp.lost)))
+\* (packages that import each other cannot be built by Go whatever is generated: pkgcycle runs are not judged on
+\* building; nobuild is the as-is prediction of a compile failure under an open deviation)
+Matches(exp, obs) == obs.failed = exp.failed
+                     /\ (~exp.failed => (OutsMatch(exp, obs) /\ (exp.lost \/ exp.pkgcycle \/ obs.builds = ~exp.nobuild)))
 Classify(e) == IF Matches(e.design, e.obs) THEN "ok"
                ELSE IF Matches(e.asis, e.obs) THEN "known" ELSE "violation"
 Report(n, e, c) ==
